@@ -26,7 +26,9 @@ PAIRS = [
  (False, "def f(v, b):\n    return v and 0 or b", "def f(v, b):\n    return 0 if v else b"),
  (False, "def f(a, b):\n    if a <= b:\n        return 1\n    return 2", "def f(a, b):\n    if not b < a:\n        return 1\n    return 2"),
  (False, "def f(a):\n    x = a.b\n    g(a)\n    return x", "def f(a):\n    g(a)\n    return a.b"),
- (False, "def f(a):\n    x = a.b\n    a.c.m()\n    return x", "def f(a):\n    a.c.m()\n    return a.b"),
+ (True, "def f(a):\n    x = a.b\n    a.c.m()\n    return x", "def f(a):\n    a.c.m()\n    return a.b"),   # assumption: a method of a.c does not change a.b
+ (False, "def f(a):\n    x = a.b\n    a.m()\n    return x", "def f(a):\n    a.m()\n    return a.b"),
+ (False, "def f(a):\n    x = a.b.c\n    a.b.m()\n    return x", "def f(a):\n    a.b.m()\n    return a.b.c"),
  (False, "def f(a):\n    x = a.b\n    yield 1\n    yield x", "def f(a):\n    yield 1\n    yield a.b"),
  (True, "def f(a, o):\n    x = a.b\n    o.update(k=1)\n    return g(x)", "def f(a, o):\n    o.update(k=1)\n    return g(a.b)"),
  (False, "def f():\n    l = []\n    m = l\n    return l, m", "def f():\n    l = []\n    m = []\n    return l, m"),
